@@ -142,7 +142,8 @@ def apply(chk, pid):
     n = sum(s["counts"].values())
     chk.cov["evaluations"] += n
     for k, v in s["counts"].items():
-        chk.distinct.add(("corpus", k, v))
+        for i in range(v):
+            chk.distinct.add(("corpus", k, i))
     chk.cov.setdefault("correspondence", {})["repository_corpus"] = {
         "kind": "internal/tests regenerated by the cff built from the current tree: base x2, source-map; go vet without the tag; byte and token-stream comparison" + ("" if chk.tier == "quick" else "; the repository's tests on the regenerated code"),
         "counts": s["counts"], "regenerated_files_equal_to_checked_in": s.get("regenerated_equals_checked_in"), "wall_s": s.get("wall_s")}
